@@ -261,6 +261,67 @@ pub fn run_enc_check(ctx: &Ctx, check: &EncCheck) -> Stats {
     if fw::should_stop() {
         return total;
     }
+    // ---- block-boundary family: a long ASCII text ending 0..=3 characters before a power-of-two
+    // offset, then one alphabet character (or a run of nine of it), then a tail
+    let thorough = ctx.tier == fw::Tier::Thorough;
+    let blocks: &[usize] = if thorough { &[256, 512, 1024, 2048, 4096, 8192, 16384, 65536] } else { &[256, 1024, 4096] };
+    let st = par_run(ctx, n_enc * blocks.len(), |part, st| {
+        let enc = check.encs[part / blocks.len()];
+        let block = blocks[part % blocks.len()];
+        let algo = enc_algo_for(enc);
+        let alpha: Vec<u32> = hist_enc::alphabet(enc).into_iter().filter(|c| *c >= 0x80).collect();
+        let want = if thorough { 10 } else { 5 };
+        let stepa = (alpha.len() / want).max(1);
+        let mut sc = EScratch::new();
+        for &x in alpha.iter().step_by(stepa).take(want) {
+            for j in 0..=3usize {
+                for reps in [1usize, 9] {
+                    if fw::should_stop() {
+                        return;
+                    }
+                    let mut text: Vec<u32> = (0..block - j).map(|i| 0x20 + (i % 90) as u32).collect();
+                    for _ in 0..reps {
+                        text.push(x);
+                    }
+                    text.extend_from_slice(&[0x74, 0x61, 0x69, 0x6C]);
+                    for &src in &check.srcs {
+                        for &repl in &check.repls {
+                            if repl && check.mappable_only_when_repl && !model_enc::mappable(algo, x) {
+                                continue;
+                            }
+                            for caps in [vec![], vec![block / 2 + 3], vec![block + 1]] {
+                                for &sink in &check.sinks {
+                                    if sink == ESink::Vec && src == Src::Utf16 {
+                                        continue;
+                                    }
+                                    let mut h = EncHistory::simple(enc, src, repl, &text);
+                                    h.sink = sink;
+                                    h.caps = caps.clone();
+                                    h.align = j;
+                                    st.evals += 1;
+                                    st.nontrivial_distinct();
+                                    st.class("character-straddling-a-power-of-two-offset");
+                                    if let Some((msg, sig)) = (check.verdict)(&h, &mut sc, st, true) {
+                                        if let Some(id) = fw::known_open_id(&sig) {
+                                            st.known_hit(id);
+                                        } else {
+                                            st.violations.push(violation_for(&h, check, msg, sig));
+                                            return;
+                                        }
+                                    }
+                                }
+                            }
+                        }
+                    }
+                }
+            }
+        }
+    });
+    total.merge(st);
+    total.exhaustive.push(format!("block-boundary family: ASCII text ending 0..=3 characters before offset {:?}, then each of ~5 non-ASCII alphabet characters (once, or nine times), then a tail x sources x sinks x modes x capacities {{ample, half a block, block + 1}}", blocks));
+    if fw::should_stop() {
+        return total;
+    }
     let parts_per_enc = 2usize;
     let per_part = (check.random_per_enc / parts_per_enc as u64).max(1);
     let st = par_run(ctx, n_enc * parts_per_enc, |part, st| {
